@@ -559,6 +559,9 @@ func (t *termer) t(v ssa.Value, d int) string {
 	defer delete(t.stack, v)
 	switch v := v.(type) {
 	case *ssa.Parameter:
+		if s, ok := paramEnv[v]; ok {
+			return s // parameter of a helper being looked through: the caller's argument
+		}
 		for i, p := range v.Parent().Params {
 			if p == v {
 				return fmt.Sprintf("p%d", i)
@@ -641,8 +644,20 @@ func (t *termer) t(v ssa.Value, d int) string {
 		}
 		return "(" + x + " " + v.Op.String() + " " + y + ")"
 	case *ssa.Call:
+		if rv, callee := inlinedResult(v, 0); rv != nil && singleReturn(callee) != nil && len(singleReturn(callee).Results) == 1 {
+			s := ""
+			withCallEnv(v, callee, func() { s = t.t(rv, d+1) })
+			return s
+		}
 		return t.call(v, d)
 	case *ssa.Extract:
+		if c, ok := v.Tuple.(*ssa.Call); ok {
+			if rv, callee := inlinedResult(c, v.Index); rv != nil {
+				s := ""
+				withCallEnv(c, callee, func() { s = t.t(rv, d+1) })
+				return s
+			}
+		}
 		return t.t(v.Tuple, d+1) + "#" + fmt.Sprint(v.Index)
 	case *ssa.Convert:
 		return typeShort(v.Type()) + "(" + t.t(v.X, d+1) + ")"
@@ -883,6 +898,14 @@ func predString(cond ssa.Value, taken bool) string {
 		}
 		cond = u.X
 		taken = !taken
+	}
+	if c, ok := cond.(*ssa.Call); ok {
+		// a predicate helper that did not exist on the reference tree: its returned expression is the predicate
+		if rv, callee := inlinedResult(c, 0); rv != nil {
+			s := ""
+			withCallEnv(c, callee, func() { s = predString(rv, taken) })
+			return s
+		}
 	}
 	if b, ok := cond.(*ssa.BinOp); ok {
 		op := b.Op
